@@ -217,42 +217,6 @@ theorem scanComments_trailing (ks : Str) (body text : Str) (c : Byte) (ca : Opti
 
 /-! ## the parser on rendered items (delimiter classes "non-blank", "blank" and "mixed") -/
 
-/-- the delimiter / comment sets the theorems are about: any non-empty delimiter set without the line
-    break and the quote – all blanks, no blank, or mixed -/
-structure CfgWF (cfg : Cfg) : Prop where
-  delimNe : cfg.delim ≠ []
-  dnl : cfg.delim.contains NL = false
-  dquote : cfg.delim.contains QUOTE = false
-  noPython : cfg.python = false
-  kq : QUOTE ∉ cfg.comment
-  kd : ∀ c ∈ cfg.comment, cfg.delim.contains c = false
-  kb : ∀ c ∈ cfg.comment, isSpace c = false
-  klbr : LBR ∉ cfg.comment
-  krbr : RBR ∉ cfg.comment
-  k0 : (0 : Byte) ∉ cfg.comment
-
-def blanks (ws : Str) : Prop := ∀ c ∈ ws, isBlank c = true
-def texts (t : Str) : Prop := ∀ c ∈ t, isText c = true
-instance (ws : Str) : Decidable (blanks ws) := by unfold blanks; infer_instance
-instance (t : Str) : Decidable (texts t) := by unfold texts; infer_instance
-
-def TrailC.WF (cfg : Cfg) : Option TrailC → Prop
-  | none => True
-  | some t => t.c ∈ cfg.comment ∧ texts t.text ∧ (∀ k ∈ cfg.comment, k ∉ t.text) ∧ QUOTE ∉ t.text
-
-theorem noDelim_false (cfg : Cfg) (h : CfgWF cfg) : noDelim cfg.delim = false := by
-  unfold noDelim
-  have h1 : cfg.delim.isEmpty = false := by cases hd : cfg.delim with
-    | nil => exact absurd hd h.delimNe
-    | cons a as => rfl
-  have h2 : (cfg.delim == [NL]) = false := by
-    cases hd : cfg.delim == [NL]
-    · rfl
-    · have : cfg.delim = [NL] := by simpa using hd
-      have hw := h.dnl
-      rw [this] at hw; simp at hw
-  simp [h1, h2]
-
 /-- blank item -/
 theorem parse_blank (cfg : Cfg) (st : PState) (ws : Str) (h : blanks ws) :
     parseLines cfg st (Item.blank ws).lines = .ok (expItem st (.blank ws)) := by
@@ -428,28 +392,6 @@ theorem valueOf_quoted (q tws : Str) (htws : blanks tws) :
 /-- only blanks follow: the empty text -/
 theorem valueOf_nil : valueOf [] = (some [], false) := rfl
 
-/-- well-formed entry line.  The separator is `ws1 ++ d :: ws2`: blanks, one byte `d`, blanks, where `d`
-    is a delimiter byte – or, when the delimiter set mixes blanks and other bytes, any blank (in that
-    class every blank separates key and value).  In the mixed class a plain value must not start with a
-    delimiter byte (it would be taken for the separator). -/
-structure EntryI.WF (cfg : Cfg) (e : EntryI) : Prop where
-  ind : blanks e.indent
-  keyNe : e.key ≠ []
-  keyCh : ∀ c ∈ e.key, isText c = true ∧ isSpace c = false ∧ cfg.delim.contains c = false ∧ c ∉ cfg.comment ∧ c ≠ QUOTE
-  keyHead : e.key.head? ≠ some LBR
-  ws1 : blanks e.ws1
-  ws2 : blanks e.ws2
-  tws : blanks e.tws
-  dIn : cfg.delim.contains e.d = true ∨ (mixedDelim cfg.delim = true ∧ isBlank e.d = true)
-  dText : isText e.d = true
-  dq : e.d ≠ QUOTE
-  val : match e.value with
-    | .plain v => texts v ∧ (∀ k ∈ cfg.comment, k ∉ v) ∧
-                  (∀ c, v.head? = some c → isSpace c = false ∧ c ≠ QUOTE ∧ (mixedDelim cfg.delim = true → cfg.delim.contains c = false)) ∧
-                  (∀ c, v.getLast? = some c → isSpace c = false)
-    | .quoted q => texts q
-  tc : TrailC.WF cfg e.tc
-
 /-- the first line of an entry without its trailing comment -/
 def EntryI.core (e : EntryI) : Str := e.key ++ e.ws1 ++ e.d :: e.ws2 ++ e.value.render ++ e.tws
 
@@ -477,6 +419,36 @@ theorem space_of_delim (delim : Str) (hb : hasNonWsp delim = false) (c : Byte) (
     have := List.any_eq_false.mp hb c (by simpa using h)
     rw [hs] at this; simp at this
   · rfl
+
+/-- a document with an entry line has delimiters: the set is neither empty nor the lone line break -/
+theorem noDelim_false (cfg : Cfg) (e : EntryI) (h : e.WF cfg) : noDelim cfg.delim = false := by
+  unfold noDelim
+  rcases h.dIn with hd | ⟨hm, _⟩
+  · have hne : e.d ≠ NL := by
+      have := h.dText
+      simp only [isText, Bool.and_eq_true, bne_iff_ne, ne_eq] at this
+      exact this.2
+    cases hdl : cfg.delim with
+    | nil => rw [hdl] at hd; simp at hd
+    | cons a as =>
+      have h2 : (a :: as == [NL]) = false := by
+        cases hc : (a :: as == [NL])
+        · rfl
+        · have : a :: as = [NL] := by simpa using hc
+          rw [hdl, this] at hd
+          simp only [List.contains_cons, List.contains_nil, Bool.or_false, beq_iff_eq] at hd
+          exact absurd hd hne
+      simp [h2]
+  · cases hdl : cfg.delim with
+    | nil => rw [hdl] at hm; simp [mixedDelim, hasWsp] at hm
+    | cons a as =>
+      have h2 : (a :: as == [NL]) = false := by
+        cases hc : (a :: as == [NL])
+        · rfl
+        · have : a :: as = [NL] := by simpa using hc
+          rw [hdl, this] at hm
+          simp [mixedDelim, hasWsp, hasNonWsp, isSpace, NL] at hm
+      simp [h2]
 
 /-- a comment character is never the separator byte -/
 theorem comment_ne_d (cfg : Cfg) (hw : CfgWF cfg) (e : EntryI) (h : e.WF cfg) (k : Byte) (hk : k ∈ cfg.comment) : k ≠ e.d := by
@@ -881,25 +853,13 @@ theorem parse_entry_first (cfg : Cfg) (hw : CfgWF cfg) (st : PState) (e : EntryI
   simp only [List.cons_append, hcomm, Bool.false_eq_true, if_false]
   simp only [List.cons_append] at hscan
   rw [hscan]
-  simp only [parseContent, hlbr, Bool.false_eq_true, if_false, noDelim_false cfg hw, parseEntry]
+  simp only [parseContent, hlbr, Bool.false_eq_true, if_false, noDelim_false cfg e h, parseEntry]
   rw [← hcore, splitKey_core cfg e h]
   have hcont := isContinuation_core cfg hw { st with line := st.line + 1, ca := caWith st.ca e.tc } org e h
   have hval := parseValue_core cfg hw e h
   have hkne : e.key.isEmpty = false := by rw [hkey]; rfl
   simp only [hcont, Bool.false_eq_true, if_false, hkne, hval]
 
-
-/-- well-formed continuation line: indentation, a text free of delimiter and comment bytes, trailing
-    blanks that are no delimiters (automatic when no delimiter is a blank).  Continuation lines exist
-    only when the delimiter set does not mix blanks and other bytes (`Item.WF`). -/
-structure ContLine.WF (cfg : Cfg) (l : ContLine) : Prop where
-  ind : blanks l.indent
-  indNe : l.indent ≠ []
-  trail : blanks l.trail
-  textNe : l.text ≠ []
-  textCh : ∀ c ∈ l.text, isText c = true ∧ cfg.delim.contains c = false ∧ c ∉ cfg.comment
-  head : ∀ c, l.text.head? = some c → isSpace c = false ∧ c ≠ LBR
-  trailNd : ∀ c ∈ l.trail, cfg.delim.contains c = false
 
 /-- the last entry was stored or extended on the current line -/
 def LastHere (st : PState) : Prop := ∃ e, st.entries.getLast? = some e ∧ e.line = st.line
@@ -954,7 +914,7 @@ theorem foldl_takeWhile_id (ks l : Str) (h : ∀ k ∈ ks, k ∉ l) : ks.foldl (
     exact ih (fun k' hk' => h k' (List.mem_cons_of_mem _ hk'))
 
 /-- continuation line of an entry item -/
-theorem parse_cont (cfg : Cfg) (hw : CfgWF cfg) (hmixed : mixedDelim cfg.delim = false) (st : PState) (l : ContLine) (h : l.WF cfg) (hl : LastHere st) :
+theorem parse_cont (cfg : Cfg) (hw : CfgWF cfg) (hmixed : mixedDelim cfg.delim = false) (hndl : noDelim cfg.delim = false) (st : PState) (l : ContLine) (h : l.WF cfg) (hl : LastHere st) :
     parseLine cfg st (l.render ++ [NL]) = .ok (storeAppend false { st with line := st.line + 1 } l.render) := by
   have hbodytext : texts (l.text ++ l.trail) := by
     intro c hc
@@ -1016,7 +976,7 @@ theorem parse_cont (cfg : Cfg) (hw : CfgWF cfg) (hmixed : mixedDelim cfg.delim =
   rw [htext] at hscan hsk ⊢
   simp only [List.cons_append] at hscan hsk ⊢
   simp only [hcomm, Bool.false_eq_true, if_false, hscan]
-  simp only [parseContent, hlbr, Bool.false_eq_true, if_false, noDelim_false cfg hw, parseEntry]
+  simp only [parseContent, hlbr, Bool.false_eq_true, if_false, hndl, parseEntry]
   have hle := lastEntry_next st st.ca hl
   simp only [isContinuation, hw.noPython, hmixed, hsk.1, hsk.2, hle]
   simp only [Bool.not_false, Bool.true_or, Bool.or_self, Bool.and_self, if_true, Bool.not_true]
@@ -1024,7 +984,7 @@ theorem parse_cont (cfg : Cfg) (hw : CfgWF cfg) (hmixed : mixedDelim cfg.delim =
 
 
 /-- continuation lines of an entry item -/
-theorem parse_conts (cfg : Cfg) (hw : CfgWF cfg) (hmixed : mixedDelim cfg.delim = false) (conts : List ContLine) (st : PState)
+theorem parse_conts (cfg : Cfg) (hw : CfgWF cfg) (hmixed : mixedDelim cfg.delim = false) (hnd : noDelim cfg.delim = false) (conts : List ContLine) (st : PState)
     (h : ∀ l ∈ conts, l.WF cfg) (hl : LastHere st) :
     parseLines cfg st (conts.map (fun l => l.render ++ [NL])) =
       .ok (conts.foldl (fun s l => storeAppend false { s with line := s.line + 1 } l.render) st) ∧
@@ -1032,20 +992,66 @@ theorem parse_conts (cfg : Cfg) (hw : CfgWF cfg) (hmixed : mixedDelim cfg.delim 
   induction conts generalizing st with
   | nil => exact ⟨rfl, hl⟩
   | cons l ls ih =>
-    have h1 := parse_cont cfg hw hmixed st l (h l (by simp)) hl
+    have h1 := parse_cont cfg hw hmixed hnd st l (h l (by simp)) hl
     have hl' : LastHere (storeAppend false { st with line := st.line + 1 } l.render) :=
       lastHere_storeAppend false _ _ (entries_ne_of_lastHere st hl)
     have := ih _ (fun l' hl' => h l' (List.mem_cons_of_mem _ hl')) hl'
     simp only [List.map_cons, parseLines, h1, List.foldl_cons]
     exact this
 
-/-- items of the conventional grammar (delimiter class "non-blank") -/
-def Item.WF (cfg : Cfg) : Item → Prop
-  | .blank ws => blanks ws
-  | .comment ind c text => blanks ind ∧ c ∈ cfg.comment ∧ texts text
-  | .sect ind name trail tc =>
-      blanks ind ∧ blanks trail ∧ name ≠ [] ∧ (∀ c ∈ name, isText c = true ∧ c ∉ cfg.comment) ∧ TrailC.WF cfg tc
-  | .entry e => e.WF cfg ∧ (∀ l ∈ e.cont, l.WF cfg) ∧ (e.cont ≠ [] → mixedDelim cfg.delim = false)
+theorem texts_append {a b : Str} (ha : texts a) (hb : texts b) : texts (a ++ b) := by
+  intro c hc
+  rcases List.mem_append.mp hc with hc | hc
+  · exact ha c hc
+  · exact hb c hc
+
+theorem texts_blanks {a : Str} (h : blanks a) : texts a := fun c hc => isBlank_isText (h c hc)
+
+/-- a line of the keys-only format: the whole text (without its trailing blanks) is the key, there is
+    no value -/
+theorem parse_keyonly (cfg : Cfg) (hw : CfgWF cfg) (st : PState) (ind key trail : Str) (tc : Option TrailC)
+    (h : (Item.keyonly ind key trail tc).WF cfg) :
+    parseLines cfg st (Item.keyonly ind key trail tc).lines = .ok (expItem st (.keyonly ind key trail tc)) := by
+  obtain ⟨hnd, hi, htr, hne, hch, hhead, hlast, htc⟩ := h
+  obtain ⟨k0, ks, rfl⟩ : ∃ k0 ks, key = k0 :: ks := by
+    cases key with
+    | nil => exact absurd rfl hne
+    | cons a as => exact ⟨a, as, rfl⟩
+  have hk0 := hch k0 (by simp)
+  have hk0h := hhead k0 rfl
+  have hbodytext : texts ((k0 :: ks) ++ trail ++ TrailC.render tc) :=
+    texts_append (texts_append (fun c hc => (hch c hc).1) (fun c hc => isBlank_isText (htr c hc))) (trail_texts cfg hw tc htc)
+  have hb : lineBody (ind ++ ((k0 :: ks) ++ trail ++ TrailC.render tc) ++ [NL]) = (k0 :: ks) ++ trail ++ TrailC.render tc := by
+    apply lineBody_render ind _ hi hbodytext
+    intro x hx; simp at hx; subst hx; exact hk0h.1
+  have hcomm : cfg.comment.contains k0 = false := by
+    cases hc : cfg.comment.contains k0
+    · rfl
+    · exact absurd (by simpa using hc) hk0.2.1
+  have hsafe : ∀ k ∈ cfg.comment, SafeFor k ((k0 :: ks) ++ trail) := by
+    intro k hk
+    left
+    intro hin
+    rcases List.mem_append.mp hin with hin | hin
+    · exact (hch k hin).2.1 hk
+    · have := isBlank_isSpace (htr k hin)
+      rw [hw.kb k hk] at this; cases this
+  have hscan := scan_line cfg hw ((k0 :: ks) ++ trail) tc st.ca hsafe htc
+  have hlbr : (k0 == LBR) = false := by
+    cases hc : k0 == LBR
+    · rfl
+    · exact absurd (by simpa using hc) hk0h.2
+  have htrim : trimKey ((k0 :: ks) ++ trail) = trimKey (k0 :: ks) := by
+    simp only [List.cons_append, trimKey]
+    congr 1
+    rw [dropLastWhile_append_all _ _ _ (fun x hx => isBlank_isSpace (htr x hx))]
+  simp only [Item.lines, parseLines, expItem]
+  unfold parseLine
+  simp only [List.cons_append, List.append_assoc] at hb hscan ⊢
+  simp only [hb, hcomm, Bool.false_eq_true, if_false, hscan]
+  simp only [parseContent, hlbr, Bool.false_eq_true, if_false, hnd, if_true]
+  simp only [List.cons_append] at htrim
+  simp only [storeNew, htrim]
 
 /-- every item is parsed into what it is expected to contribute -/
 theorem parse_item (cfg : Cfg) (hw : CfgWF cfg) (st : PState) (it : Item) (h : it.WF cfg) :
@@ -1059,8 +1065,9 @@ theorem parse_item (cfg : Cfg) (hw : CfgWF cfg) (st : PState) (it : Item) (h : i
     simp only [Item.lines, parseLines, h1, expItem]
     by_cases hc : e.cont = []
     · rw [hc]; rfl
-    · have h2 := parse_conts cfg hw (h.2.2 hc) e.cont _ h.2.1 (lastHere_storeNew { st with line := st.line + 1, ca := caWith st.ca e.tc } e.key e.expValue.1 e.expValue.2)
+    · have h2 := parse_conts cfg hw (h.2.2 hc) (noDelim_false cfg e h.1) e.cont _ h.2.1 (lastHere_storeNew { st with line := st.line + 1, ca := caWith st.ca e.tc } e.key e.expValue.1 e.expValue.2)
       exact h2.1
+  | keyonly ind key trail tc => exact parse_keyonly cfg hw st ind key trail tc h
 
 /-- documents -/
 theorem parse_doc (cfg : Cfg) (hw : CfgWF cfg) (doc : List Item) (st : PState) (h : ∀ it ∈ doc, it.WF cfg) :
@@ -1111,14 +1118,6 @@ theorem splitLines_lines_append (ls : List Str) (rest : Str) (h : ∀ l ∈ ls, 
       splitLines_line t _ (text_ne_NL ht), ih (fun l' hl' => h l' (List.mem_cons_of_mem _ hl'))]
     rfl
 
-theorem texts_append {a b : Str} (ha : texts a) (hb : texts b) : texts (a ++ b) := by
-  intro c hc
-  rcases List.mem_append.mp hc with hc | hc
-  · exact ha c hc
-  · exact hb c hc
-
-theorem texts_blanks {a : Str} (h : blanks a) : texts a := fun c hc => isBlank_isText (h c hc)
-
 theorem item_lines_text (cfg : Cfg) (hw : CfgWF cfg) (it : Item) (h : it.WF cfg) : ∀ l ∈ it.lines, IsLine l := by
   cases it with
   | blank ws =>
@@ -1157,6 +1156,11 @@ theorem item_lines_text (cfg : Cfg) (hw : CfgWF cfg) (it : Item) (h : it.WF cfg)
       refine ⟨c.render, rfl, ?_⟩
       unfold ContLine.render
       exact texts_append (texts_append (texts_blanks hc'.ind) (fun x hx => (hc'.textCh x hx).1)) (texts_blanks hc'.trail)
+  | keyonly ind key trail tc =>
+    intro l hl; simp only [Item.lines, List.mem_singleton] at hl; subst hl
+    obtain ⟨_, hi, htr, _, hch, _, _, htc⟩ := h
+    exact ⟨ind ++ (key ++ trail ++ TrailC.render tc), rfl,
+      texts_append (texts_blanks hi) (texts_append (texts_append (fun c hc => (hch c hc).1) (texts_blanks htr)) (trail_texts cfg hw tc htc))⟩
 
 theorem splitLines_render (cfg : Cfg) (hw : CfgWF cfg) (doc : List Item) (h : ∀ it ∈ doc, it.WF cfg) :
     splitLines (render doc) = renderLines doc := by
